@@ -112,7 +112,7 @@ func checkC12(w *Worker) {
 	w.appInit()
 	depth := 4
 	if w.Tier == "thorough" {
-		depth = 6
+		depth = 5 // 10 blocks: 111110 histories per book
 	}
 	blockText := make([]string, len(c12Blocks))
 	for i, b := range c12Blocks {
